@@ -341,6 +341,17 @@ func Point(label string) {
 	s.yield(&pendingOp{kind: opPoint, label: label})
 }
 
+// Choose is an environment choice point: the driver asks the explorer for one of n alternatives
+// (which workload of a family, which moment an action is taken). Every alternative is explored,
+// at no cost in deviations; outside a controlled execution and in free mode the answer is 0.
+func Choose(n int, label string) int {
+	s := S
+	if !s.active || s.abort || n <= 1 {
+		return 0
+	}
+	return s.choose(n, "env", label, false)
+}
+
 // WaitIdle blocks the calling thread until no other thread can make progress
 // (all background work has settled).
 func WaitIdle() {
